@@ -66,6 +66,7 @@ Definition hstep (k : tkind) (id : N) (h : hist) (x : tin) (o : obs) : option hi
   | IFire r, ORes code =>
       if N.eqb code 0 then
         if negb (h_started h) then None                      (* nothing was sent that could be answered *)
+        else if h_done h && negb (h_out h) && negb (h_clr h) then None   (* gone without outcome: its request was dropped *)
         else if live h && negb (h_clr h) then
           (if is_ok (class_start k id r) then Some (set_pend h) else Some (set_bad h))
         else Some h                                          (* late answer: ignored *)
@@ -73,6 +74,7 @@ Definition hstep (k : tkind) (id : N) (h : hist) (x : tin) (o : obs) : option hi
   | IAnsClr r, ORes code =>
       if N.eqb code 0 then
         if negb (h_clr h) then None
+        else if h_done h && negb (h_out h) then None         (* gone without outcome: the Clear request was dropped *)
         else if live h then (if is_ok (class_clear id r) then Some (set_ans h) else Some (set_bad h))
         else Some h
       else if N.eqb code 3 then None else Some h
